@@ -845,6 +845,29 @@ fn generate_rearranged(mut rng: Rng, seed: u64, tier: Tier, ptr: usize) -> Case 
         worlds.push(World::from_files(ptr, q.files()));
     }
     notes.push("arrangement:declaration_order".to_string());
+    // Import style: every foreign name imported wholesale (`use m;`), or one by one
+    // (`use m::T;`), generated `<T>Vftable` names included.
+    if p.modules.len() > 1 {
+        for by_name in [false, true] {
+            let mut q = p.clone();
+            for m in q.modules.iter_mut() {
+                m.type_imports = by_name;
+                if !by_name {
+                    for line in m.extra_uses.iter_mut() {
+                        if let Some((module, _item)) = line
+                            .trim_end_matches(';')
+                            .rsplit_once("::")
+                            .filter(|(_, item)| item.chars().next().is_some_and(|c| c.is_uppercase()))
+                        {
+                            *line = format!("{module};");
+                        }
+                    }
+                }
+            }
+            worlds.push(World::from_files(ptr, q.files()));
+        }
+        notes.push("arrangement:import_style".to_string());
+    }
     let mut q = p.clone();
     let nm = q.modules.len();
     if nm > 1 {
@@ -901,11 +924,14 @@ fn same_items_same_verdict(
     report: &mut crate::case::CaseReport,
 ) -> Option<Verdict> {
     let mut expect: Option<(bool, BTreeSet<String>)> = None;
-    for w in &case.worlds {
-        let parsed = parse_world(w).ok()?;
+    // Worlds whose arrangement changed what a name means (the model answers differently for
+    // them) stay out of the comparison.
+    let mut comparable: BTreeSet<usize> = BTreeSet::new();
+    for (wi, w) in case.worlds.iter().enumerate() {
+        let Ok(parsed) = parse_world(w) else { continue };
         let m = Model::build(&parsed);
         if !m.duplicates.is_empty() {
-            return None;
+            continue;
         }
         // Same short names declared, same verdict of the model, same unresolvable short names.
         let short = |s: &String| s.rsplit("::").next().unwrap_or(s).to_string();
@@ -914,14 +940,27 @@ fn same_items_same_verdict(
             m.decls.keys().map(short).chain(m.unresolvable.iter().map(|u| format!("!{}", short(u)))).collect::<BTreeSet<String>>(),
         );
         match &expect {
-            None => expect = Some(sig),
-            Some(e) if *e != sig => return None,
-            Some(_) => {}
+            None if wi == 0 => {
+                expect = Some(sig);
+                comparable.insert(wi);
+            }
+            None => return None,
+            Some(e) if *e != sig => {}
+            Some(_) => {
+                comparable.insert(wi);
+            }
         }
     }
+    if comparable.len() < 2 {
+        return None;
+    }
     report.count("oracle:same_items_rearranged", 1);
+    report.count("oracle:arrangements_compared", comparable.len() as u64);
     let mut seen: Option<(bool, usize, String)> = None;
     for (bi, b) in case.builds.iter().enumerate() {
+        if !comparable.contains(&b.world) {
+            continue;
+        }
         for r in &results[bi] {
             let ok = match &r.outcome {
                 Outcome::Ok => true,
